@@ -219,10 +219,16 @@ loop:
 		chunks[i] = results[i]
 	}
 
+	// Only mark the index as using SHA512/256 if that's the digest in use
+	var digestFlag uint64
+	if Digest.Algorithm() == crypto.SHA512_256 {
+		digestFlag = CaFormatSHA512256
+	}
+
 	// Build and return the index
 	index := Index{
 		Index: FormatIndex{
-			FeatureFlags: CaFormatExcludeNoDump | CaFormatSHA512256,
+			FeatureFlags: CaFormatExcludeNoDump | digestFlag,
 			ChunkSizeMin: c.Min(),
 			ChunkSizeAvg: c.Avg(),
 			ChunkSizeMax: c.Max(),
